@@ -560,6 +560,29 @@ pub fn behavior(w: &Walker, root_text: &str) -> Result<WalkBehavior, String> {
     Ok(WalkBehavior { depth, link })
 }
 
+/// The form in which the behaviour reaches `walk`/`walk_with_behavior`: client code rarely writes
+/// out a whole `WalkBehavior`; it passes nothing, `()`, or one of the values that convert into it.
+/// Chooses the form the scenario asks for if it expresses exactly `beh`, else the plain value.
+/// `None`: `walk(...)` without a behaviour. The conversions are the library's own `From`
+/// implementations, applied here exactly as the generic entry point would apply them.
+pub fn beh_arg(form: u8, beh: WalkBehavior) -> (Option<WalkBehavior>, &'static str) {
+    let default_link = beh.link == LinkBehavior::default();
+    let default_depth = beh.depth == DepthBehavior::default();
+    match form {
+        1 if default_link && default_depth => (None, "absent"),
+        2 if default_link && default_depth => (Some(().into()), "unit"),
+        3 | 1 | 2 if default_depth => (Some(beh.link.into()), "link-behaviour"),
+        4 if default_link => (Some(beh.depth.into()), "depth-behaviour"),
+        5 | 6 if default_link => match beh.depth {
+            DepthBehavior::Max(m) => (Some(m.into()), "depth-max"),
+            DepthBehavior::Min(m) => (Some(m.into()), "depth-min"),
+            DepthBehavior::MinMax(m) => (Some(m.into()), "depth-min-max"),
+            DepthBehavior::Unbounded => (Some(beh.depth.into()), "depth-behaviour"),
+        },
+        _ => (Some(beh), "walk-behaviour"),
+    }
+}
+
 fn install_order(w: &Walker, cwd: &str, root_text: &str) {
     let is_dir = |p: &Path| std::fs::symlink_metadata(p).map(|m| m.is_dir()).unwrap_or(false);
     let name_key = |salt: u64, p: &Path| {
@@ -630,9 +653,9 @@ pub fn build_walker(
     install_order(w, cwd, &world.root_text);
     let base = PathBuf::from(to_os(&base_text(w, cwd, &world.root_text)));
     let beh = behavior(w, &world.root_text)?;
-    let res = match &w.source {
-        Source::Path => {
-            let it = base.as_path().walk_with_behavior(beh);
+    macro_rules! finish {
+        ($it:expr) => {{
+            let it = $it;
             if w.erased {
                 build_erased(it, &w.layers, w.taps, &ctx, cwd)
             }
@@ -642,7 +665,19 @@ pub fn build_walker(
             else {
                 p5(it, &w.layers, 0, &ctx, cwd)
             }
-        },
+        }};
+    }
+    macro_rules! start {
+        ($arg:expr, $absent:expr, |$b:ident| $with:expr) => {
+            match $arg {
+                None => finish!($absent),
+                Some($b) => finish!($with),
+            }
+        };
+    }
+    let (arg, _) = beh_arg(w.form, beh);
+    let res = match &w.source {
+        Source::Path => start!(arg, base.as_path().walk(), |b| base.as_path().walk_with_behavior(b)),
         Source::Glob { expr, rooted } => {
             // safety net: the simulator never walks outside its world
             let ups = expr.split('/').take_while(|c| *c == "..").count();
@@ -664,16 +699,7 @@ pub fn build_walker(
             if shared {
                 globs.borrow_mut().insert(text.clone(), glob.clone());
             }
-            let it = glob.walk_with_behavior(base, beh);
-            if w.erased {
-                build_erased(it, &w.layers, w.taps, &ctx, cwd)
-            }
-            else if w.taps {
-                t5(it, &w.layers, 0, &ctx, cwd)
-            }
-            else {
-                p5(it, &w.layers, 0, &ctx, cwd)
-            }
+            start!(arg, glob.walk(base.clone()), |b| glob.walk_with_behavior(base.clone(), b))
         },
     };
     verif::set_entry_order(None);
